@@ -60,7 +60,11 @@ def gen_bundle_program(seed):
                 kk = None if r.random() < 0.6 else r.choice([1, 5, -1])
                 new_bundle(("bfilter", r.choice(CMPS), ("bref", src), scalar_operand(), kk), bundles[src])
             elif x < 0.65:
-                c = ("cmp", r.choice(CMPS), ("var", r.choice(scal)), ("int", r.choice([0, 3, 5, 10])))
+                # the condition signal must not be a member of the gated bundle: known finding S24
+                free = [i for i in scal if decls[i][2] not in bundles[src]]
+                if not free:
+                    continue
+                c = ("cmp", r.choice(CMPS), ("var", r.choice(free)), ("int", r.choice([0, 3, 5, 10])))
                 new_bundle(("bgate", c, ("bref", src)), bundles[src])
             elif x < 0.75 and len(bundles) >= 1:
                 # merge with a fresh literal over unused types
